@@ -469,5 +469,38 @@ def run(F, rep, tier):
             else:
                 rep.ok('R10.7', '%s::%s' % (base, m), 'next advances %s, override reads %s' % (sorted(w) or 'nothing', sorted(r)))
     rep.floor('R10.7', 'index/slice overrides', n107, 3)
+    # ---------------- R10.8
+    rep.rule('R10.8', 'slice sections keep absent bounds absent: in Func::run (and the closures it defines) every match on a slice-section '
+             'bound (Option<Box<Option<Obj>>>, also seen through as_deref as Option<&Option<Obj>>) selects for the input None - "the section '
+             'was written without this bound" - an arm that does not consume an argument (no Iterator::next); only Some(None), the `_` slot, does')
+    from .c04 import _matches
+    frn = 'eval::<impl core::Func>::run'
+    n108 = 0
+    if not F.has_fn(frn):
+        rep.error('R10.8', 'Func::run missing')
+    else:
+        for fn8 in [frn] + list(F.closures_of(frn)):
+            b8 = F.body(fn8)
+            for m in F.matches.get(fn8, []):
+                if m['kind'] != 'Normal':
+                    continue
+                if not re.search(r'Option<(std::boxed::Box<|&)\s*std::option::Option<core::Obj>', m['scrut_ty']):
+                    continue
+                n108 += 1
+                sel = None
+                for i, a in enumerate(m['arms']):
+                    if _matches(a['pat'], {'k': 'path', 'p': 'None'}) and not a.get('guard'):
+                        sel = i
+                        break
+                if sel is None:
+                    rep.error('R10.8', '%s: no arm for an absent bound in a match on %s' % (fn8, m['scrut_ty']))
+                    continue
+                regn = arm_region(F, b8, m, sel)
+                nx = [c for c in b8.calls_in(regn) if c.target.rsplit('::', 1)[-1] == 'next']
+                if nx:
+                    rep.viol('R10.8', '%s|absent-bound-consumes' % fn8, 'for a slice section written without a bound (e.g. `_[:_]`) the absent bound takes an argument: `_[:_]` applied to (s, b) computes s[b:] instead of s[:b]', nx[0].loc())
+                else:
+                    rep.ok('R10.8', '%s match on %s' % (fn8.rsplit('::', 1)[-1], m['scrut_ty'][-60:]), 'None -> arm %d, consumes nothing' % sel)
+        rep.floor('R10.8', 'matches on slice-section bounds', n108, 1)
     rep.undecided += ['clamped_pythonic_index equals Python\'s clamp as a function of (i, len)', 'stream index/slice values']
     return META
